@@ -232,6 +232,25 @@ func checkChanOp(r *Report, rule string, lt *lifetimeTable, op chanOp, nReplySen
 				return
 			}
 		}
+		// a select that sits in a loop must leave the loop on its lifetime case: `break` inside a
+		// select only leaves the select, and a closed channel is always ready, so the loop would spin
+		if sel, ok := op.Instr.(*ssa.Select); ok && reachableFromSuccs(sel.Block())[sel.Block()] {
+			for k, st := range op.States {
+				cs := chanSourceOf(st.Chan)
+				if st.Dir != types.RecvOnly || !lt.isLifetime(cs) || cs.Nilable {
+					continue
+				}
+				cb := selectCaseBlock(sel, k)
+				if cb == nil {
+					r.Undecided(rule, key+"/leaves-loop", st.Pos, "cannot locate the body of the %s case", describeState(st))
+					return
+				}
+				if reachableFrom(cb)[sel.Block()] {
+					r.Fail(rule, key+"/"+describeState(st)+"-leaves-loop", st.Pos, "the %s case of a select inside a loop can reach the select again: once that channel is closed the case is always ready and the loop never ends (the goroutine neither exits nor runs its remaining cleanup)", describeState(st))
+					return
+				}
+			}
+		}
 		r.Ok(rule, key, pos, "blocking select includes the lifetime channel of the object it waits on")
 	case opSend:
 		cs := chanSourceOf(op.States[0].Chan)
@@ -636,4 +655,14 @@ func c17Deletion(r *Report) {
 		})
 		r.Check(ok, "R4", "Torrent.run/defer-Pieces.Del", run.Pos(), "run's exit defer frees the piece store on every exit", "no deferred function of run that dominates every return calls Pieces.Del: a deleted torrent keeps its memory")
 	}
+}
+
+func reachableFromSuccs(b *ssa.BasicBlock) map[*ssa.BasicBlock]bool {
+	out := map[*ssa.BasicBlock]bool{}
+	for _, s := range b.Succs {
+		for k := range reachableFrom(s) {
+			out[k] = true
+		}
+	}
+	return out
 }
